@@ -146,8 +146,15 @@ def b1_model(pid, tier, seed, model, wd):
 
 
 # --------------------------------------------------------------------------- B2: random real-valued histories
-def rand_history(rng, hid, transport, nsteps, ntids=8, maxrto=60000):
+def rand_history(rng, hid, transport, nsteps, ntids=8, maxrto=60000, us=False, crowd=False):
+    """us: instants in microseconds (ticks with sub-millisecond parts; configuration values stay whole ms, values are
+    kept small enough for TLC's 32-bit integers); crowd: several hundred distinct peers get validated"""
     addrs = ["a1", "a2", "a3", "a4", "a5", "a6"]
+    if us:
+        maxrto = 400
+    if crowd:
+        addrs = ["a%d" % i for i in range(1, 329)]
+        nsteps = 700
     if rng.random() < 0.12:
         # many distinct peers (a population larger than any small fixed-size table)
         addrs = ["a%d" % i for i in range(1, 49)]
@@ -160,8 +167,12 @@ def rand_history(rng, hid, transport, nsteps, ntids=8, maxrto=60000):
         rto = rng.choice([1, 499, 500, 501, 60000, rng.randint(1, maxrto), rng.randint(1, 2000)])
         n = rng.choice([0, 1, 7, 8, rng.randint(0, 8)])
         last = rng.choice([0, 1, 60000, rng.randint(0, 60000), rng.randint(0, 3000)])
+        if us:
+            rto = rng.choice([1, 2, 100, 399, 400, rng.randint(1, 400)])
+            n = rng.choice([0, 1, 2, 3, rng.randint(0, 3)])
+            last = rng.choice([0, 1, 500, rng.randint(0, 2000)])
         k = rng.random()
-        if k < 0.10:
+        if k < 0.10 and not us:
             rto, n = 500, 6                     # the intervals of the default schedule, another final timeout
         elif k < 0.30 and t in prev_cfg:
             rto, n = prev_cfg[t]                # only the final timeout changes
@@ -170,29 +181,34 @@ def rand_history(rng, hid, transport, nsteps, ntids=8, maxrto=60000):
         return rto, n, last
     many = len(addrs) > 6
     nxt_peer = 0
+    tmul = 1000 if us else 1
     for _ in range(nsteps):
         r = rng.random()
         t = rng.randrange(ntids) if rng.random() < 0.7 or not live else rng.choice(live)
-        if many and rng.random() < 0.5:
+        if many and rng.random() < (0.9 if crowd else 0.5):
             # every address of the large population gets validated, in turn
             steps.append({"a": "recv", "cls": rng.choice(["request", "indication"]), "tid": t, "from": addrs[nxt_peer % len(addrs)]})
             nxt_peer += 1
             continue
         if r < 0.30:
             k = rng.random()
+            jit = rng.randint(0, 999) if us else 0          # sub-millisecond part
             if k < 0.35:
-                steps.append({"a": "tick_wake", "delta": 0, "d": rng.randint(1, 3000)})
+                steps.append({"a": "tick_wake", "delta": 0, "d": rng.randint(1, 3000) * tmul + jit})
             elif k < 0.55:
-                steps.append({"a": "tick_wake", "delta": -1, "d": rng.randint(1, 3000)})
+                steps.append({"a": "tick_wake", "delta": -1, "d": rng.randint(1, 3000) * tmul + jit})
             elif k < 0.75:
-                steps.append({"a": "tick_wake", "delta": rng.choice([1, 2, 499, rng.randint(1, 40000)]), "d": 1})
+                steps.append({"a": "tick_wake", "delta": rng.choice([1, 2, 499, rng.randint(1, 40000)]) * (tmul if rng.random() < 0.5 else 1), "d": 1})
             else:
-                steps.append({"a": "tick", "d": rng.choice([1, 499, 500, 501, rng.randint(1, 5000), rng.randint(1, 100000)])})
+                steps.append({"a": "tick", "d": rng.choice([1, 499, 500, 501, rng.randint(1, 5000), rng.randint(1, 100000 if not us else 3000)]) * (tmul if rng.random() < 0.7 else 1) + jit})
             steps.append({"a": "poll"})
         elif r < 0.45:
             sealed = rng.choice([False, False, "sha1", "sha256", "both"])
-            steps.append({"a": "send", "cls": "request", "tid": t, "to": rng.choice(addrs), "sealed": sealed,
-                          "pay": rng.choice(["p1", "p2", "p3"])})
+            st = {"a": "send", "cls": "request", "tid": t, "to": rng.choice(addrs), "sealed": sealed,
+                  "pay": rng.choice(["p1", "p2", "p3"])}
+            if rng.random() < 0.12:
+                st["back"] = rng.choice([1, 300, 450, rng.randint(1, 2000)]) * tmul    # sampled before the last poll's instant
+            steps.append(st)
             live.append(t)
             if rng.random() < 0.6:
                 rto, n, last = cfgvals(t)
@@ -218,7 +234,15 @@ def rand_history(rng, hid, transport, nsteps, ntids=8, maxrto=60000):
         else:
             steps.append({"a": "send", "cls": rng.choice(["indication", "success", "error"]), "to": rng.choice(addrs),
                           "pay": rng.choice(["p1", "p2"])})
-    return {"id": hid, "seed": rng.randrange(1 << 30), "transport": transport, "scale": 1, "probe": True,
+    if us:
+        # always configure (the default schedule of 39.5 s would not fit 32-bit microseconds for long)
+        fixed = []
+        for st in steps:
+            fixed.append(st)
+            if st["a"] == "send" and st.get("cls") == "request" and not (len(fixed) < len(steps) and False):
+                fixed.append({"a": "configure", "tid": st["tid"], "rto": rng.choice([1, 50, 300]), "n": rng.randint(0, 3), "last": rng.choice([0, 200, 1500])})
+        steps = fixed
+    return {"id": hid, "seed": rng.randrange(1 << 30), "transport": transport, "scale": 1, "probe": True, "us": us,
             "ntids": ntids, "steps": steps, "req_alg": rng.choice(ALGS), "resp_alg": rng.choice(ALGS),
             "cred_variant": rng.randrange(4)}
 
@@ -289,7 +313,10 @@ def event_to_trace_lines(ev, transport):
 
 def _poll_ret(ret):
     if ret["k"] == "wait":
-        return {"k": "wait", "until": ret["until_ms"]}
+        # TLC integers are 32-bit: an instant beyond that (the idle hour in microseconds) is passed as a marker; the
+        # specification ignores the idle value and can never produce the marker for an outstanding request
+        u = ret["until_ms"]
+        return {"k": "wait", "until": u if -2000000000 < u < 2000000000 else -2}
     if ret["k"] == "transmit":
         return {"k": "transmit", "tid": ret["tid"], "pay": ret["pay"], "to": ret["to"]}
     return {"k": ret["k"], "tid": ret.get("tid", -1)}
@@ -300,13 +327,13 @@ B2_OWNER = {"poll": ["C06", "C05"], "recv_resp": ["C07", "C05", "C15"], "recv_ot
             "set_remote": ["C07"], "set_local": ["C07"]}
 
 
-def validate_trace(lines, transport, wd, tag):
+def validate_trace(lines, transport, wd, tag, us=False):
     """returns None if accepted else 1-based index of the first line that no spec step explains"""
     path = os.path.join(wd, "trace_%s.ndjson" % tag)
     with open(path, "w") as f:
         for ln in lines:
             f.write(json.dumps(ln) + "\n")
-    res = run_tlc("StunAgentTrace.tla", "StunAgentTrace_%s.cfg" % transport, workers=1, timeout=1800,
+    res = run_tlc("StunAgentTrace.tla", "StunAgentTrace_%s%s.cfg" % (transport, "_us" if us else ""), workers=1, timeout=1800,
                   env_extra={"TRACE": path}, java_opts="-Xss1g -Xmx4g -Dtlc2.tool.queue.IStateQueue=StateDeque")
     out = res["out"]
     os.remove(path)
@@ -330,7 +357,8 @@ def b2(pid, tier, seed, wd, rep):
     t0 = time.time()
     for transport in ("udp", "tcp"):
         rng = random.Random(seed * 1000003 + (1 if transport == "udp" else 2))
-        scripts = [rand_history(rng, "%s/h%d" % (transport, i), transport, nsteps) for i in range(nh if transport == "udp" else nh // 2)]
+        scripts = [rand_history(rng, "%s/h%d" % (transport, i), transport, nsteps, us=(i % 4 == 3), crowd=(i == 1))
+                   for i in range(nh if transport == "udp" else nh // 2)]
         out = run_scripts(scripts, wd, "b2" + transport)
         if pid == "C20":
             # the same histories again in other agent instances (another thread, decoy agents, later in the process):
@@ -375,8 +403,9 @@ def b2(pid, tier, seed, wd, rep):
             stats["histories"] += 1
         # validate in batches; on rejection drop that history and go on with the rest
         batch = 400
-        for b0 in range(0, len(hist_lines), batch):
-            pending = hist_lines[b0:b0 + batch]
+        groups = [[h for h in hist_lines if not h[0].get("us")], [h for h in hist_lines if h[0].get("us")]]
+        chunks = [(g[b0:b0 + batch], bool(g and g[0][0].get("us")), "%d_%d" % (gi, b0)) for gi, g in enumerate(groups) for b0 in range(0, len(g), batch)]
+        for pending, us_mode, ctag in chunks:
             for _attempt in range(8):
                 if not pending:
                     break
@@ -386,7 +415,7 @@ def b2(pid, tier, seed, wd, rep):
                     for ln in lines:
                         flat.append(ln)
                         owner.append(hi)
-                rej, res = validate_trace(flat, transport, wd, "%s_%d" % (transport, b0))
+                rej, res = validate_trace(flat, transport, wd, "%s_%s" % (transport, ctag), us=us_mode)
                 stats["tlc_runs"] += 1
                 if rej is None:
                     stats["trace_lines"] += len(flat)
